@@ -99,6 +99,10 @@ def clear_source_cache():
     _FILE_AST.clear()
 
 
+class InlineInstead(Exception):
+    """Raised by Contract.apply_at_call *before any effect* when the contract cannot stand for this call."""
+
+
 INLINED_FILES = set()       # files of every function whose body was interpreted (for the lock's source hash)
 
 
@@ -351,6 +355,10 @@ class Interp:
                 return z3.Length(v.e) > 0
             if isinstance(v.ty, tuple) and v.ty[0] == 'enum':
                 return True
+            if isinstance(v.ty, tuple) and v.ty[0] == 'opaque':
+                # bool() of an abstract object: some fixed truth value of that object (uninterpreted predicate)
+                srt = v.e.sort()
+                return z3.Function('truthy_%s' % srt.name(), srt, z3.BoolSort())(v.e)
             raise OutOfSubset('truth value of %r' % (v,), node)
         if isinstance(v, PList):
             return len(v.items) > 0 if v.concrete else z3.Length(v.e) > 0
@@ -495,7 +503,10 @@ class Interp:
         if isinstance(f, types.FunctionType) and in_repo(f):
             con = self.contracts.get(f)
             if con is not None:
-                return self.call_contract(con, f, args, kwargs, node)
+                try:
+                    return self.call_contract(con, f, args, kwargs, node)
+                except InlineInstead:
+                    pass        # the contract has no call-site form for these arguments: interpret the body
             return self.call_real_function(f, args, kwargs, node)
         if f is dict.__new__ or getattr(f, '__self__', None) is dict and getattr(f, '__name__', '') == '__new__':
             from .values import SymMap as _SM
